@@ -22,9 +22,13 @@ namespace BitSerializer
 			TValue temp;
 			if constexpr (TArchive::IsLoading())
 			{
-				archive.SerializeValue(std::forward<TKey>(key), temp);
-				value.store(temp);
-				return true;
+				// Keep the current value when the new one was not loaded (absent key, null or skipped by policy)
+				if (archive.SerializeValue(std::forward<TKey>(key), temp))
+				{
+					value.store(temp);
+					return true;
+				}
+				return false;
 			}
 			else
 			{
@@ -45,9 +49,13 @@ namespace BitSerializer
 			TValue temp;
 			if constexpr (TArchive::IsLoading())
 			{
-				archive.SerializeValue(temp);
-				value.store(temp);
-				return true;
+				// Keep the current value when the new one was not loaded (null or skipped by policy)
+				if (archive.SerializeValue(temp))
+				{
+					value.store(temp);
+					return true;
+				}
+				return false;
 			}
 			else
 			{
